@@ -308,6 +308,29 @@ def _mark_rule(chk, prog):
             chk.violation(rule, fn.tu.name, fn.name, "JanetVM.%s" % name, n.loc,
                           "janet_vm.%s holds a collectable object but is neither marked by janet_collect nor rooted where it is "
                           "assigned (`%s`): the next collection frees it while the VM still uses it" % (name, n.text()[:60]))
+    # tables embedded in the VM record hold Janet values too: each is marked, or rooted where filled, or a weak index
+    # that the sweep purges before it frees anything
+    sweep = prog.need_func("janet_sweep", "gc.c")
+    swept = set(n.field for n in sweep.nodes if n.k == "mem" and n.rec == "JanetVM")
+    for f in vm["fields"]:
+        if f["t"].replace("const ", "").strip() != "JanetTable":
+            continue
+        chk.instance(rule)
+        name = f["n"]
+        fillers = [fn for fn in prog.all_funcs() if any(c.k == "call" and c.callee in ("janet_table_put",) and c.args and
+                                                         any(is_mem(y, name, "JanetVM") for y in c.args[0].walk()) for c in fn.nodes)]
+        if name in marked:
+            chk.ok(rule, "JanetVM.%s (table) marked by janet_collect / janet_ev_mark" % name)
+        elif name in swept:
+            chk.ok(rule, "JanetVM.%s (table) is a weak index: janet_sweep purges it" % name)
+        elif fillers and all(fn.calls("janet_gcroot") for fn in fillers):
+            chk.ok(rule, "JanetVM.%s (table) entries are rooted where they are inserted" % name)
+        else:
+            fn = (fillers or [col])[0]
+            chk.violation(rule, fn.tu.name, fn.name, "JanetVM.%s" % name, fn.loc,
+                          "the table janet_vm.%s holds collectable values but is neither marked, nor are its entries rooted when they "
+                          "are inserted, nor does janet_sweep remove the entries whose objects it is about to free: whoever reads the "
+                          "table later ((ev/all-tasks)) gets pointers to freed objects" % name)
     # abstract payloads
     from rules.c03 import abstract_types
     payload = {}
@@ -691,6 +714,37 @@ def _threadedmark_rule(chk, prog):
                           "left `false` in the table and finalized" %
                           ("past a test of the mark bit (`%s`)" % bad.text()[:60] if bad is not None else "after the mark bit has been set"))
     chk.floor(rule, 1, len(puts))
+    # the same independence for every reader of the bit: `was this abstract visited` may be asked of the mark bit only
+    # once threaded abstracts have been excluded (for them the answer is in the table)
+    gc = prog.tus["gc.c"]
+    k = 0
+    for g in gc.funcs.values():
+        sites = [x for x in g.nodes if "janet_gc_reachable" in x.macro_names() and x.k == "bin" and x.op == "&" and "JanetAbstractHead" in x.text()]
+        if not sites:
+            continue
+        chk.analysed(g)
+        IN2, T2 = flow.condition_facts(g)
+        res = {}
+        for x, S in flow.states_at(g, IN2, T2):
+            for sx in sites:
+                if x is sx:
+                    res[id(sx)] = bool(S) and all(any(op == "!=" and rn is not None and
+                                                      ("JANET_MEMORY_THREADED_ABSTRACT" in rr or any(y.k == "ref" and y.name == "JANET_MEMORY_THREADED_ABSTRACT" for y in rn.walk()))
+                                                      for (op, l, rr, toks, ln, rn) in ps) for ps in S)
+        for sx in sites:
+            if id(sx) not in res:
+                continue
+            k += 1
+            chk.instance(rule)
+            if res[id(sx)]:
+                chk.ok(rule, "%s: the mark bit of an abstract is read only after threaded abstracts were excluded" % g.name)
+            else:
+                chk.violation(rule, "gc.c", g.name, "markbit-of-threaded", sx.loc,
+                              "%s reads the mark bit of an abstract that may be a threaded abstract: no sweep maintains that bit for "
+                              "them, so the answer is stale - a weak array or weak table drops a thread channel the program still "
+                              "holds (or keeps a dead one)" % g.name)
+    if k < 2:
+        raise AnalysisBroken("only %d mark-bit reads of abstract heads found in gc.c" % k)
 
 
 def _ringmark_rule(chk, prog):
